@@ -19,6 +19,16 @@ func stateString(u *Url) string {
 	return s
 }
 
+// errString: the validation errors recorded on a URL value (reporting parsers). Whether Clone carries
+// them over is not fixed by anything; that an operation on ANOTHER value changes them is a violation.
+func errString(u *Url) string {
+	s := ""
+	for _, e := range u.ValidationErrors() {
+		s += "\x03" + e.Error()
+	}
+	return s
+}
+
 // sameBacking: two string slices share their backing array (compared at the last element of the
 // full capacity, which every slice of one array has in common).
 func sameBackingStrings(a, b []string) bool {
@@ -206,15 +216,29 @@ func VerifC13ResolveLeavesBase() {
 
 var cloneStarts = []string{"http://h/p?a=1&b=2#f", "a:b  ?q", "http://h/?x", "a://h/p?%20x=+y&&z", "http://u:p@h:8/p?q#f", "file:///C:/d", "a:b ?q#f", "a:/.//p"}
 
+// reportingStarts: under a reporting parser these carry 0, 3 and 5 recorded validation errors (slices with
+// spare capacity behind them).
+var reportingStarts = []string{"http://h/p?a=1&b=2#f", "http://h\\a\\b\\c?q", "http://h/a b c d e f?q"}
+
 // VerifC13Clone: Clone returns a fully independent copy that behaves like the original would:
 // after preparing lazily created state, clone; then two operations, each on the clone or on the
 // original; the other value never changes and the clone reflects its operations like an
 // independently built copy.
 func VerifC13Clone() {
-	start := cloneStarts[vnd.Pick(len(cloneStarts))]
+	// the default parser on every start shape, or a reporting parser (whose URL values carry their
+	// validation errors) on three starts
+	p := NewParser().(*parser)
+	p.opts.reportValidationErrors = vnd.Bool()
+	var start string
+	if p.opts.reportValidationErrors {
+		start = reportingStarts[vnd.Pick(len(reportingStarts))]
+		vnd.Cover("clone-of-reporting-url", true)
+	} else {
+		start = cloneStarts[vnd.Pick(len(cloneStarts))]
+	}
 	// one symbolic byte in the query (or opaque path) of the start URL
 	start += vnd.StrOver(vnd.Len(1), "ab&=%+ 2#")
-	u, err := Parse(start)
+	u, err := p.Parse(start)
 	if err != nil {
 		return
 	}
@@ -228,7 +252,7 @@ func VerifC13Clone() {
 	verifCheckUnchanged(u, us, "Clone changed the original")
 	verifCheckDisjoint(u, c, "original and clone")
 	// an independent copy made the long way: it must behave like the clone
-	ind, ierr := Parse(start)
+	ind, ierr := p.Parse(start)
 	if ierr != nil {
 		return
 	}
@@ -238,16 +262,24 @@ func VerifC13Clone() {
 		op := vnd.Pick(nAliasOps)
 		if vnd.Pick(2) == 0 {
 			s := stateString(u)
+			es := errString(u)
 			aliasOp(c, op, arg)
 			aliasOp(ind, op, arg)
 			verifCheckUnchanged(u, s, "an operation on the clone changed the original")
+			if errString(u) != es {
+				vnd.Fail("an operation on the clone changed the validation errors recorded on the original")
+			}
 			if stateString(c) != stateString(ind) {
 				vnd.Fail("the clone does not reflect its operations like an independent copy")
 			}
 		} else {
 			s := stateString(c)
+			es := errString(c)
 			aliasOp(u, op, arg)
 			verifCheckUnchanged(c, s, "an operation on the original changed the clone")
+			if errString(c) != es {
+				vnd.Fail("an operation on the original changed the validation errors recorded on the clone")
+			}
 		}
 	}
 	verifCheckDisjoint(u, c, "original and clone after operations")
